@@ -76,7 +76,7 @@ def Clean (c : Cfg V E) (init : Pid → Entry V E) (s : Sys V E) (p : Pid) : Pro
 
 def pcPid : PC V E → Option Pid
   | .idle => none
-  | .locked p _ => some p
+  | .locked p _ _ => some p
   | .timed p _ _ => some p
   | .compared p _ _ _ => some p
   | .stored p _ _ _ => some p
@@ -91,7 +91,7 @@ def pcPid : PC V E → Option Pid
 def Mid (c : Cfg V E) (e0 : Entry V E) (m0 : List (Msg V E)) (cur : Entry V E) (lg : Cid → List (Msg V E)) :
     PC V E → Prop
   | .idle => False
-  | .locked _ _ => cur = e0 ∧ ∀ k ∈ c.conns, lg k = m0
+  | .locked _ _ _ => cur = e0 ∧ ∀ k ∈ c.conns, lg k = m0
   | .timed _ _ _ => cur = e0 ∧ ∀ k ∈ c.conns, lg k = m0
   | .compared _ _ v chg => cur = e0 ∧ chg = changed c.o e0 v ∧ ∀ k ∈ c.conns, lg k = m0
   | .stored _ _ v chg => cur = storeValue e0 (.val v) ∧ chg = changed c.o e0 v ∧ ∀ k ∈ c.conns, lg k = m0
@@ -224,7 +224,7 @@ theorem inv_stepIdle {c : Cfg V E} {init : Pid → Entry V E} {s s' : Sys V E} (
       split at hs
       · cases hs; exact frame _ _
       · cases hs
-    | announce p ev =>
+    | announce p ev ts =>
       simp only at hs
       split at hs
       · rename_i hl
@@ -257,7 +257,7 @@ theorem inv_step {c : Cfg V E} {init : Pid → Entry V E} {s s' : Sys V E} (hn :
   unfold step at hs
   cases hpc : (s.thr t).pc with
   | idle => rw [hpc] at hs; exact inv_stepIdle hi t hpc hs
-  | locked p ev =>
+  | locked p ev ts =>
     rw [hpc] at hs; simp only [Option.some.injEq] at hs; subst hs
     obtain ⟨hlk, hidle, hclean, hmid⟩ := inv_mid hi t p (by rw [hpc]; simp) (by rw [hpc]; rfl)
     rw [hpc] at hmid
@@ -481,14 +481,14 @@ theorem reach_of_runSched {V E : Type} [DecidableEq E] (c : Cfg V E) (s0 s s' : 
 /-- the calls of the funnel a program makes: parameter and resolved value-or-error, in program order -/
 def annR (o : Oracle V E) : List (Op V E) → List (Pid × VE V E)
   | [] => []
-  | .announce p ev :: rest => (p, resolve o ev) :: annR o rest
+  | .announce p ev _ :: rest => (p, resolve o ev) :: annR o rest
   | .accAcquire :: rest => annR o rest
   | .accRelease :: rest => annR o rest
 
 /-- the call a thread is in the middle of -/
 def inflight (o : Oracle V E) : PC V E → List (Pid × VE V E)
   | .idle => []
-  | .locked p ev => [(p, resolve o ev)]
+  | .locked p ev _ => [(p, resolve o ev)]
   | .timed p _ r => [(p, r)]
   | .compared p _ v _ => [(p, .val v)]
   | .stored p _ v _ => [(p, .val v)]
@@ -554,13 +554,13 @@ theorem shuf_step {c : Cfg V E} {progs : Tid → List (Op V E)} {s s' : Sys V E}
         · cases hs
           exact shuf_frame h t rfl rfl (fun t' ht' => upd_other _ _ _ _ ht') (by simp [hpc, hprog, annR, inflight])
         · cases hs
-      | announce p ev =>
+      | announce p ev ts =>
         simp only at hs
         split at hs
         · cases hs
           exact shuf_frame h t rfl rfl (fun t' ht' => upd_other _ _ _ _ ht') (by simp [hpc, hprog, annR, inflight])
         · cases hs
-  | locked p ev =>
+  | locked p ev ts =>
     rw [hpc] at hs; simp only [Option.some.injEq] at hs; subst hs
     exact shuf_frame h t rfl rfl (fun t' ht' => thr_setPc_other _ _ _ _ ht') (by rw [thr_setPc_same]; simp [hpc, inflight])
   | timed p now r =>
